@@ -1954,7 +1954,7 @@ DEFAULT_CONSTS = {}
 def is_scalar_const(init):
     k = init.get("k")
     if k == "Lit":
-        return init.get("t") in ("int", "str", "char", "bool", "byte", "float") or isinstance(init.get("v"), (int, str, bool))
+        return init.get("t") in ("int", "str", "char", "bool", "byte", "bytes", "float") or isinstance(init.get("v"), (int, str, bool))
     if k == "Unary" and init.get("op") == "-":
         return is_scalar_const(init["e"])
     if k in ("Paren", "Group"):
